@@ -17,13 +17,16 @@ package multiproof
 
 //@ func MultiProof.Write
 //@ props C10
-//@ prelude field curve bytesint io
+//@ prelude field curve bytesint io wrspec
 //@ let c0 = wcalls(w)
 //@ let n0 = wlen(w)
 //@ let total = len(mp.IPA.L) + len(mp.IPA.R) + 2
 //@ requires wlen(w) >= 0 && obj(w) != obj(mp) && obj(w) != obj(mp.IPA.L) && obj(w) != obj(mp.IPA.R)
 //@ ensures (c0 <= wr_fail(w) && wr_fail(w) < c0 + total) ==> result != nil
 //@ ensures (wr_fail(w) < c0 || wr_fail(w) >= c0 + total) ==> result == nil && wcalls(w) == c0 + total && wlen(w) == n0 + 32 * total
+// content: D, then the IPA proof (L points, R points, scalar)
+//@ ensures @C10 result == nil ==> fpbytesAt(wrow(w), n0, 32, encx(mp.D.inner.X, mp.D.inner.Y, mp.D.inner.Z))
+//@ ensures @C10 result == nil ==> penc(wrow(w), n0 + 32, row(mp.IPA.L), off(mp.IPA.L), len(mp.IPA.L), len(mp.IPA.L)) && penc(wrow(w), n0 + 32 + 32 * len(mp.IPA.L), row(mp.IPA.R), off(mp.IPA.R), len(mp.IPA.R), len(mp.IPA.R)) && frleAt(wrow(w), n0 + 32 + 32 * (len(mp.IPA.L) + len(mp.IPA.R)), mp.IPA.A_scalar)
 //@ modifies wcalls(w), wlen(w), wout(w, n0, n0 + 32 * total)
 
 // ---- CheckMultiProof against the reference verifier mp_accept of /verif/spec/mpspec.smt2 (C02)
